@@ -44,8 +44,9 @@ Proof. exact refers_to_func_complete. Qed.
 Print Assumptions C06_function_operator_tables_exact.
 
 (* The full property (every reference kind designates the entity the caller's id denoted; the import
-   section order agrees with the index space; the output validates) is false of the faithful model in the
-   classes below; outside them it is decided per history by CheckReidx.verdict06 on the real output. *)
+   section order agrees with the index space; the output validates) was false of the faithful model in the classes
+   D02, D05, D06 (all repaired: the former witnesses below satisfy it now; no known class is left for this engine);
+   on the real output it is decided per history by CheckReidx.verdict06. *)
 
 (* former D02 (converting local functions to imports in descending order: import-section order and index order
    disagreed; repaired: the import section is emitted in index order): the witness now satisfies the property, the
@@ -56,10 +57,17 @@ Example C06_former_D02_witness_holds :
   agree c = true /\ dom_of (verdict06 c) = true /\ holds_of (verdict06 c) = true
   /\ option_map e_imports (o_enc c) = Some [(0, 22); (0, 21)].
 Proof. vm_compute. repeat split; reflexivity. Qed.
-(* D05: a `ref.func` expression item of an element segment is copied although its target moved *)
-Example C06_refuted_D05 :
+(* former D05 (a `ref.func` expression item of an element segment was copied although its target moved; repaired: the
+   constant expressions kept as parsed are re-indexed): the witness now satisfies the property, the item is
+   emitted as `ref.func 0`; and an item that refers to a deleted function makes encode fail loudly *)
+Example C06_former_D05_witness_holds :
   let c := self_r [] [11; 12; 99] [] [] [Delete SF 0] [mkSite KElemExpr SF 1 ONone] in
-  agree c = true /\ dom_of (verdict06 c) = true /\ holds_of (verdict06 c) = false /\ known_D05 c = true.
+  agree c = true /\ dom_of (verdict06 c) = true /\ holds_of (verdict06 c) = true
+  /\ option_map e_sites (o_enc c) = Some [(0, 0)].
+Proof. vm_compute. repeat split; reflexivity. Qed.
+Example C06_former_D05_deleted_target_is_loud :
+  let c := self_r [] [11; 12; 99] [] [] [Delete SF 1] [mkSite KElemExpr SF 1 ONone] in
+  agree c = true /\ o_enc c = None /\ dom_of (verdict06 c) = true /\ holds_of (verdict06 c) = true.
 Proof. vm_compute. repeat split; reflexivity. Qed.
 (* former D06 (an added import that is deleted again stayed in the index space; repaired: recalculate_ids drops
    every deleted item): the witness now satisfies the property *)
